@@ -279,13 +279,6 @@ class CasJsonDeserializer:
         # Map the JSON FS ID to xmiID
         attributes["xmiID"] = fs_id
 
-        # Remap features that use a reserved Python name
-        if "self" in attributes:
-            attributes["self_"] = attributes.pop("self")
-
-        if "type" in attributes:
-            attributes["type_"] = attributes.pop("type")
-
         if typesystem.is_primitive_array(AnnotationType.name):
             attributes["elements"] = self._parse_primitive_array(AnnotationType.name, json_fs.get(ELEMENTS_FIELD))
         elif AnnotationType.name == TYPE_NAME_FS_ARRAY:
@@ -297,14 +290,19 @@ class CasJsonDeserializer:
 
         self._strip_reserved_json_keys(attributes)
 
+        # Remap features that use a reserved Python name, also when they carry a reference or number prefix
+        def python_name(name: str) -> str:
+            return name + "_" if name in ("self", "type") else name
+
         ref_features = {}
         for key, value in list(attributes.items()):
+            attributes.pop(key)
             if key.startswith(REF_FEATURE_PREFIX):
-                ref_features[key[1:]] = value
-                attributes.pop(key)
-            if key.startswith(NUMBER_FEATURE_PREFIX):
-                attributes[key[1:]] = self._parse_float_value(value)
-                attributes.pop(key)
+                ref_features[python_name(key[1:])] = value
+            elif key.startswith(NUMBER_FEATURE_PREFIX):
+                attributes[python_name(key[1:])] = self._parse_float_value(value)
+            else:
+                attributes[python_name(key)] = value
 
         self._max_xmi_id = max(attributes["xmiID"], self._max_xmi_id)
         fs = AnnotationType(**attributes)
